@@ -43,6 +43,11 @@ func genHistory(t *rapid.T, minOps, maxOps int, delWeight int) c07Case {
 	n := rapid.IntRange(minOps, maxOps).Draw(t, "nops")
 	o := TxOpts{Pool: SafePool[:rapid.IntRange(2, len(SafePool)).Draw(t, "npool")], MaxRefs: 4, MaxLogs: 3,
 		HashSize: c.Cfg.HashSize(), Exact: c.Cfg.Exact, DelWeight: delWeight}
+	if rapid.IntRange(0, 5).Draw(t, "cancelFamily") == 3 {
+		// family: few names, half of the records deletions, no logs - so that compacting a
+		// range that reaches the bottom leaves nothing and the list only shrinks
+		o.Pool, o.MaxRefs, o.MaxLogs, o.DelWeight = SafePool[:2], 2, 0, 5
+	}
 	for i := 0; i < n; i++ {
 		op := c07Op{}
 		k := rapid.IntRange(0, 19).Draw(t, "opK")
